@@ -8,7 +8,7 @@
    (.debug_frame / .eh_frame layout), Spec/C06Cfi.v (the 6.4 reference interpreter),
    Spec/C06View.v (how a spec object is observed through the library's API types). *)
 From Coq Require Import String.
-From PV Require Import Base.Bytes Gen.C06Tables Spec.C06View
+From PV Require Import Base.Bytes Gen.C06Tables Spec.C06View Model.C06Dwarfinfo
      Proofs.C06GenProofs Proofs.C06TableProofs Proofs.C06TableExact Proofs.C06InstrProofs
      Proofs.C06EntriesProofs.
 From Coq Require Import List.
@@ -135,6 +135,42 @@ Theorem C06_section_tables : forall s k e t,
   result_matches (get_decoded (view_entry s (entry_offset_of s k) e)) t.
 Proof. exact section_tables. Qed.
 Print Assumptions C06_section_tables.
+
+(* The public entry points: ONE DWARFInfo holding a .debug_frame and an .eh_frame section.  Whatever
+   the descriptive name / global_offset fields of the two DebugSectionDescriptors are (equal,
+   None, swapped), CFI_entries() returns the entries of the .debug_frame section and
+   EH_CFI_entries() those of the .eh_frame section ... *)
+Theorem C06_dwarfinfo_entries : forall sd se nd ne gd ge,
+  s_eh sd = false -> s_eh se = true -> s_le sd = s_le se -> s_asize sd = s_asize se ->
+  wf_section sd = true -> wf_section se = true ->
+  let di := mkdwarfinfo (Some (desc_of nd gd sd)) (Some (desc_of ne ge se))
+                        (mkstructs (s_le sd) 32 (Z.of_nat (s_asize sd))) in
+  CFI_entries di = Ok (expected_entries sd) /\ EH_CFI_entries di = Ok (expected_entries se).
+Proof. exact dwarfinfo_entries. Qed.
+Print Assumptions C06_dwarfinfo_entries.
+
+(* ... in every history of calls on that object, in any order, repeated or not *)
+Theorem C06_dwarfinfo_calls : forall sd se nd ne gd ge calls,
+  s_eh sd = false -> s_eh se = true -> s_le sd = s_le se -> s_asize sd = s_asize se ->
+  wf_section sd = true -> wf_section se = true ->
+  cfi_calls (mkdwarfinfo (Some (desc_of nd gd sd)) (Some (desc_of ne ge se))
+                         (mkstructs (s_le sd) 32 (Z.of_nat (s_asize sd)))) calls
+  = map (fun eh : bool => Ok (expected_entries (if eh then se else sd))) calls.
+Proof. exact dwarfinfo_calls. Qed.
+Print Assumptions C06_dwarfinfo_calls.
+
+Example C06_ex_dwarfinfo :
+  let cie := mkscie false 3 None (mkleb 4 [4]) (mkleb (-8) [0x78]) (mkleb 16 [16])
+               [I_def_cfa (mkleb 7 [7]) (mkleb 8 [8])] in
+  let ecie := mkscie false 1 (Some (mkleb 1 [1], [AugR PSdata4 true])) (mkleb 1 [1])
+                (mkleb (-8) [0x78]) (mkleb 16 [16]) [I_def_cfa (mkleb 7 [7]) (mkleb 8 [8])] in
+  let sd := mkssection false true 8 0 [SCie cie] in
+  let se := mkssection true true 8 0x500000 [SCie ecie; SZero] in
+  let di := mkdwarfinfo (Some (desc_of None 0 sd)) (Some (desc_of None 0 se)) (mkstructs true 32 8) in
+  wf_section sd = true /\ wf_section se = true /\
+  map (fun r => match r with Ok l => Z.of_nat (List.length l) | Err _ => -1 end)
+      (cfi_calls di [true; false; true]) = [2; 1; 2].
+Proof. vm_compute. repeat split; reflexivity. Qed.
 
 (* non-vacuity: gcc's "zPLR" CIE (personality udata4|indirect-ish high bits 9, LSDA and FDE
    addresses pc-relative sdata4), an FDE with an LSDA pointer, a terminator; the FDE's
